@@ -176,8 +176,11 @@ struct Driver {
     double wall = 0;
     std::string fail_sig, fail_detail, fail_replay;
     int violations = 0;
+    uint64_t leak_ctr = 0;
 };
-inline Driver &drv() { static Driver d; return d; }
+inline Driver &drv() { static Driver *d = new Driver; return *d; }   // intentionally never destroyed (used from the sanitizer death callback at exit)
+// run LeakSanitizer's recoverable check after every N-th case (0 = only at process exit); set by targets in vf_global_init
+inline unsigned &leak_check_interval() { static unsigned n = 0; return n; }
 
 inline void write_file(const std::string &path, const void *p, size_t n) {
     int fd = open(path.c_str(), O_WRONLY | O_CREAT | O_TRUNC, 0644);
@@ -241,6 +244,9 @@ inline std::string run_case(const PropDef &pd, const uint8_t *data, size_t len, 
     catch (const Fail &f) { sig = f.sig.empty() ? "fail" : f.sig; if (detail) *detail = f.detail; }
     catch (const Discard &) { if (discarded) *discarded = true; }
     if (pd.case_timeout) alarm(0);
+    if (sig.empty() && leak_check_interval() && (++d.leak_ctr % leak_check_interval()) == 0) {
+        if (__lsan_do_recoverable_leak_check()) { sig = "lsan:leak-after-case"; if (detail) *detail = "LeakSanitizer found memory leaked by this case (see log for allocation stacks)"; }
+    }
     return sig;
 }
 
@@ -297,7 +303,7 @@ inline double now_s() { return std::chrono::duration<double>(std::chrono::steady
 inline int driver_main(int argc, char **argv) {
     Driver &d = drv();
     uint64_t cases = 1000; double secs = 1e9; std::string replay, known_file, replay_dir; double shrink_secs = 60;
-    bool enumerate = false; uint64_t nshards = 1, stride = 1;
+    bool enumerate = false; uint64_t nshards = 1, stride = 1; uint64_t dump_idx = (uint64_t) -1; std::string dump_path;
     for (int i = 1; i < argc; i++) {
         std::string a = argv[i];
         auto nxt = [&]() -> const char * { return i + 1 < argc ? argv[++i] : ""; };
@@ -311,6 +317,7 @@ inline int driver_main(int argc, char **argv) {
         else if (a == "--shrink-secs") shrink_secs = atof(nxt());
         else if (a == "-v") d.ctx.verbose = true;
         else if (a == "--enumerate") enumerate = true;
+        else if (a == "--dump-case") { dump_idx = strtoull(nxt(), 0, 10); dump_path = nxt(); }
         else if (a == "--nshards") nshards = strtoull(nxt(), 0, 10);
         else if (a == "--enum-stride") stride = strtoull(nxt(), 0, 10);
     }
@@ -333,6 +340,7 @@ inline int driver_main(int argc, char **argv) {
         d.ctx.replaying = false; d.ctx.verbose = true;
         std::string detail; bool disc = false;
         std::string sig = run_case(pd, buf.data(), buf.size(), &detail, &disc);
+        d.cur = nullptr;
         d.ctx.evaluations = 1; d.wall = now_s() - t0;
         if (!sig.empty()) {
             bool known = d.ctx.is_known(sig);
@@ -340,9 +348,11 @@ inline int driver_main(int argc, char **argv) {
             d.fail_sig = sig; d.fail_detail = detail; d.fail_replay = replay; d.violations = known ? 0 : 1;
             if (known) { d.ctx.known_hits[sig]++; d.ctx.known_detail[sig] = detail; d.fail_sig.clear(); }
             write_stats(known ? "ok" : "fail");
+            fflush(stdout);
             return known ? 0 : 1;
         }
         printf("REPLAY %s pass%s\n", replay.c_str(), disc ? " (discarded)" : "");
+        fflush(stdout);
         write_stats("ok");
         return 0;
     }
@@ -383,6 +393,7 @@ inline int driver_main(int argc, char **argv) {
             if (mode == 7) v &= 0x0f0f0f0f0f0f0f0fULL;
             size_t k = tape.size() - i < 8 ? tape.size() - i : 8; memcpy(&tape[i], &v, k);
         }
+        if (c == dump_idx) { write_file(dump_path, tape.data(), tape.size()); return 0; }
         std::string detail; bool disc = false;
         std::string sig = run_case(pd, tape.data(), tape.size(), &detail, &disc);
         d.ctx.evaluations++;
